@@ -43,18 +43,18 @@ structure HTTPMatch where
   sourceLabels : List (String × String) := []
   sourceNamespace : String := ""
   gateways : List String := []
-  deriving Repr
+  deriving DecidableEq, Repr
 
 structure Destination where
   host : String
   subset : String := ""
   port : Option Nat := none
-  deriving Repr
+  deriving DecidableEq, Repr
 
 structure RouteDest where
   dest : Destination
   weight : Nat := 0
-  deriving Repr
+  deriving DecidableEq, Repr
 
 inductive RedirectPortSel where
   | unset
@@ -70,12 +70,12 @@ structure Redirect where
   scheme : String := ""
   port : RedirectPortSel := .unset
   code : Nat := 0
-  deriving Repr
+  deriving DecidableEq, Repr
 
 structure DirectResponse where
   status : Nat
   body : Option String := none     -- `HTTPBody.string` only
-  deriving Repr
+  deriving DecidableEq, Repr
 
 structure HTTPRoute where
   name : String := ""
@@ -83,7 +83,7 @@ structure HTTPRoute where
   route : List RouteDest := []
   redirect : Option Redirect := none
   direct : Option DirectResponse := none
-  deriving Repr
+  deriving DecidableEq, Repr
 
 /-- `internal.istio.io/route-semantics` annotation. -/
 inductive Semantics where
@@ -96,7 +96,7 @@ structure VirtualService where
   sem : Semantics := .plain
   hosts : List String := []
   http : List HTTPRoute := []
-  deriving Repr
+  deriving DecidableEq, Repr
 
 /-! ## Compilation context -/
 
